@@ -98,6 +98,10 @@ def run(chk):
         {'pat': rl.s2l('re/') + [TOKEN] + rl.s2l('/bar'), 'filters': ['re(to.)'], 'names': ['']},
         {'pat': rl.s2l('f/') + [TOKEN] + rl.s2l('x') + [TOKEN], 'filters': ['float(None)', 'int(None)'], 'names': ['a', 'b']},
         {'pat': rl.s2l('static/only'), 'filters': [], 'names': []},
+        # directly adjacent wildcards followed by literal text
+        {'pat': [TOKEN, TOKEN] + rl.s2l('/tail'), 'filters': ['int(None)', 'None'], 'names': ['a', 'b']},
+        {'pat': rl.s2l('x/') + [TOKEN, TOKEN] + rl.s2l('-end/') + [TOKEN], 'filters': ['int(None)', 're([a-z]+)', 'None'], 'names': ['n', 'w', 'z']},
+        {'pat': [TOKEN, TOKEN, TOKEN] + rl.s2l('.z'), 'filters': ['float(None)', 're([a-z]+)', 'int(None)'], 'names': ['f', '', 'i']},
     ]
     recs = []
     rules = fixed + rand_universe(rng, 200 if thorough else 40)
